@@ -18,5 +18,5 @@ if [ -d gen ] && [ -f gen/main.go ]; then
 fi
 (cd coq && timeout 3000 make -j16 >/dev/null 2>.make.err || { tail -30 .make.err; echo "coq build failed (checks will report it)"; })
 cp /repo/go.sum harness/go.sum
-(cd harness && go build -tags verif -o ../.build/harness-warm . ) || echo "harness build failed (checks will report it)"
+(cd harness && for d in cmd/*/; do go build -tags verif -o ../.build/warm-$(basename $d) ./$d || echo "harness $d build failed (checks will report it)"; done)
 echo setup-done
